@@ -215,8 +215,15 @@ def run(ctx):
     # the lock file is never unlinked (a deleted lock file lets a second opener lock a fresh one)
     lib.callers_confined(ctx, '3h remove_file-callers', F, ['std::fs::remove_file', 'std::fs::remove_dir_all', 'std::fs::rename'],
                          {'log::Log::open', 'log::Log::drop_log', 'column::Column::drop_files', 'file::TableFile::remove', 'index::IndexTable::drop_file',
-                          'ref_count::RefCountTable::drop_file', 'migration::deplace_column', 'migration::migrate::{closure#2}'},
-                         'files are unlinked/renamed only by the known log, table, index, ref-count and migration sites - none of which can name the lock file', required=['log::Log::drop_log'])
+                          'ref_count::RefCountTable::drop_file', 'migration::deplace_column', 'migration::migrate::{closure#2}',
+                          'options::Options::write_metadata_file_with_version'},
+                         'files are unlinked/renamed only by the known log, table, index, ref-count, migration and metadata sites - none of which can name the lock file', required=['log::Log::drop_log'])
+    # the metadata writer renames its temporary file over the path it is given: that path is <dir>/metadata, never <dir>/lock
+    for fn in ('options::Options::write_metadata_with_version',):
+        b = F.body(fn)
+        if b is not None:
+            names = [s2 for bi, s2 in lib.str_consts(b)]
+            ctx.ob('3i metadata-path-is-not-the-lock-file %s' % fn, 'K8-const', fn, 'the file name appended by the metadata writer is "metadata"', 'metadata' in names and 'lock' not in names, str(names))
     if False:
         pass
         lib.must_pass(ctx, '3f drop_inner-always-unlocks', d, un, 'every path through drop_inner reaches unlock', cut_errors=False)
